@@ -264,6 +264,90 @@ fn cmd_lograce(req: &Value) -> Value {
     json!({"before": before, "after": after, "panics_during": panics, "api_panics": api_panics})
 }
 
+// the `verif:namegen` / `verif:pq-names` lines (hooks 44c332e namegen-sites, d5c1b7e pq-names) of a finished debug log
+fn name_lines(log: Option<prqlc::debug::DebugLog>) -> Vec<Value> {
+    let mut out = vec![];
+    if let Some(log) = log {
+        match serde_json::to_value(&log) { Err(e) => out.push(json!(format!("SERERR {e}"))), Ok(_) => {} }
+        if let Ok(Value::Object(m)) = serde_json::to_value(&log) {
+            if let Some(Value::Array(es)) = m.get("entries") {
+                out.push(json!(format!("N {} {}", es.len(), es.iter().take(40).map(|e| e.to_string().chars().take(60).collect::<String>()).collect::<Vec<_>>().join(" ## "))));
+                for e in es {
+                    if let Some(t) = e.get("kind").and_then(|k| k.get("Message")).and_then(|v| v.get("text")).and_then(|t| t.as_str()) {
+                        if t.starts_with("verif:namegen ") || t.starts_with("verif:pq-names ") {
+                            out.push(json!(t));
+                        }
+                    }
+                }
+            }
+        }
+    }
+    out
+}
+
+fn compile_only(req: &Value) -> Value {
+    let o = match options(req) {
+        Ok(o) => o,
+        Err(v) => return v,
+    };
+    guarded(|| match prqlc::compile(s(req, "src"), &o) {
+        Ok(sql) => json!({ "ok": sql }),
+        Err(e) => err_text(&e),
+    })
+}
+
+// Generated-name state per call.
+// {steps: [req..]}            : a history; every step compiled under its own debug log -> {steps: [{r, names: [line..]}]}
+// {par: {n, m, reqs}}         : n threads at once under ONE log (thread i compiles reqs[i % len] m times); the lines of all
+//                               calls come back as one list (the log is process-global: lines are not attributed to calls)
+fn cmd_names(req: &Value) -> Value {
+    let _ = guarded(|| {
+        let _ = prqlc::debug::log_finish();
+        json!(null)
+    });
+    if let Some(par) = req.get("par") {
+        let n = par.get("n").and_then(|v| v.as_u64()).unwrap_or(16) as usize;
+        let m = par.get("m").and_then(|v| v.as_u64()).unwrap_or(1) as usize;
+        let reqs: Vec<Value> = par.get("reqs").and_then(|v| v.as_array()).cloned().unwrap_or_default();
+        if reqs.is_empty() {
+            return json!({"bad_request": "no reqs"});
+        }
+        prqlc::debug::log_start();
+        let barrier = std::sync::Arc::new(std::sync::Barrier::new(n));
+        let mut handles = vec![];
+        for i in 0..n {
+            let r = reqs[i % reqs.len()].clone();
+            let b = barrier.clone();
+            handles.push(std::thread::spawn(move || {
+                b.wait();
+                let mut v = vec![];
+                for _ in 0..m {
+                    v.push(compile_only(&r));
+                }
+                v
+            }));
+        }
+        let outs: Vec<Value> = handles
+            .into_iter()
+            .map(|h| match h.join() {
+                Ok(v) => Value::Array(v),
+                Err(_) => json!([{"panic": {"msg": "thread join failed"}}]),
+            })
+            .collect();
+        let names = name_lines(prqlc::debug::log_finish());
+        return json!({"outs": outs, "names": names});
+    }
+    let steps: Vec<Value> = req.get("steps").and_then(|v| v.as_array()).cloned().unwrap_or_default();
+    let mut out = vec![];
+    for st in steps {
+        prqlc::debug::log_start();
+        let r = compile_only(&st);
+        let names = name_lines(prqlc::debug::log_finish());
+        out.push(json!({"r": r, "names": names}));
+    }
+    json!({ "steps": out })
+}
+
 pub fn dispatch(cmd: &str, req: &Value) -> Option<Value> {
     match cmd {
         "c11_out" => Some(outputs(req)),
@@ -273,6 +357,7 @@ pub fn dispatch(cmd: &str, req: &Value) -> Option<Value> {
         "c11_tree" => Some(cmd_tree(req)),
         "c11_log" => Some(cmd_log(req)),
         "c11_lograce" => Some(cmd_lograce(req)),
+        "c11_names" => Some(cmd_names(req)),
         _ => None,
     }
 }
